@@ -485,6 +485,16 @@ object (installs, uninstalls, lookups, the install source replaced or deleted), 
 of the observed operation. -/
 theorem model_holds (i : Input) : Holds i (run i) = true := model_holds_op (eff i)
 
+/-- **concurrent use of one manager**: what other goroutines do with OTHER names through the same
+manager object at the same time does not enter the specification - the answer for a name, and what
+may run or change, are those of the sequential call (the harness repeats the call many times while
+peers hammer the manager, and every answer must be this one). -/
+theorem peers_irrelevant (i : Input) (ps : List Text) :
+    run { i with peers := ps } = run i ∧ ∀ o, Holds { i with peers := ps } o = Holds i o := by
+  constructor
+  · rfl
+  · intro o; rfl
+
 /-! ### readable corollaries -/
 
 /-- **valid_name_confined** (paths): for every root string and every name that
@@ -630,28 +640,28 @@ def sampleFS : List Node :=
     ⟨"/src".toList, .dir, 0, []⟩, ⟨"/src/notation-new".toList, .exec, 2, []⟩, ⟨"/src/notation-..".toList, .exec, 2, []⟩ ]
 
 /-- a valid, installed name is found and run where it should be -/
-example : run { op := .get, root := "/a/p/".toList, name := "good".toList, src := [], overwrite := false, trusted := true, cwd := [], path := [], history := [], fs := sampleFS } =
+example : run { op := .get, root := "/a/p/".toList, name := "good".toList, src := [], overwrite := false, trusted := true, cwd := [], path := [], peers := [], history := [], fs := sampleFS } =
     { err := false, executed := ["/a/p/good/notation-good".toList], changed := [], listed := [], chmod := [] } := by decide
 
 /-- uninstall removes exactly the plugin directory -/
-example : run { op := .uninstall, root := "/a/p".toList, name := "good".toList, src := [], overwrite := false, trusted := true, cwd := [], path := [], history := [], fs := sampleFS } =
+example : run { op := .uninstall, root := "/a/p".toList, name := "good".toList, src := [], overwrite := false, trusted := true, cwd := [], path := [], peers := [], history := [], fs := sampleFS } =
     { err := false, executed := [], changed := ["/a/p/good".toList, "/a/p/good/notation-good".toList], listed := [], chmod := [] } := by decide
 
 /-- the traversal is refused -/
-example : run { op := .uninstall, root := "/a/p".toList, name := "../victim".toList, src := [], overwrite := false, trusted := true, cwd := [], path := [], history := [], fs := sampleFS } =
+example : run { op := .uninstall, root := "/a/p".toList, name := "../victim".toList, src := [], overwrite := false, trusted := true, cwd := [], path := [], peers := [], history := [], fs := sampleFS } =
     errObs := by decide
 
 /-- install from a file creates `<root>/<name>/notation-<name>` and runs only the source -/
-example : run { op := .install, root := "/a/p".toList, name := "new".toList, src := "/src/notation-new".toList, overwrite := false, trusted := true, cwd := [], path := [], history := [], fs := sampleFS } =
+example : run { op := .install, root := "/a/p".toList, name := "new".toList, src := "/src/notation-new".toList, overwrite := false, trusted := true, cwd := [], path := [], peers := [], history := [], fs := sampleFS } =
     { err := false, executed := ["/src/notation-new".toList],
       changed := ["/a/p/new".toList, "/a/p/new/notation-new".toList], listed := [], chmod := [] } := by decide
 
 /-- a file called `notation-..` is refused before it is run -/
-example : run { op := .install, root := "/a/p".toList, name := "..".toList, src := "/src/notation-..".toList, overwrite := true, trusted := true, cwd := [], path := [], history := [], fs := sampleFS } =
+example : run { op := .install, root := "/a/p".toList, name := "..".toList, src := "/src/notation-..".toList, overwrite := true, trusted := true, cwd := [], path := [], peers := [], history := [], fs := sampleFS } =
     errObs := by decide
 
 /-- the listing: the real directory only -/
-example : (run { op := .list, root := "/a/p".toList, name := [], src := [], overwrite := false, trusted := true, cwd := [], path := [], history := [], fs := sampleFS }).listed =
+example : (run { op := .list, root := "/a/p".toList, name := [], src := [], overwrite := false, trusted := true, cwd := [], path := [], peers := [], history := [], fs := sampleFS }).listed =
     ["good".toList] := by decide
 
 /-- a plugin directory left over by a broken installation: the executable entry is a dangling
@@ -665,12 +675,12 @@ def leftoverFS : List Node :=
 
 /-- Install replaces the left-over directory: the links go, a fresh executable comes, and
 nothing outside `<root>/<name>` is touched -/
-example : run { op := .install, root := "/a/p".toList, name := "new".toList, src := "/src/notation-new".toList, overwrite := false, trusted := true, cwd := [], path := [], history := [], fs := leftoverFS } =
+example : run { op := .install, root := "/a/p".toList, name := "new".toList, src := "/src/notation-new".toList, overwrite := false, trusted := true, cwd := [], path := [], peers := [], history := [], fs := leftoverFS } =
     { err := false, executed := ["/src/notation-new".toList],
       changed := ["/a/p/new/LICENSE".toList, "/a/p/new/notation-new".toList], listed := [], chmod := [] } := by decide
 
 /-- `Holds` is false of an Install that wrote through the dangling link -/
-example : Holds { op := .install, root := "/a/p".toList, name := "new".toList, src := "/src/notation-new".toList, overwrite := false, trusted := true, cwd := [], path := [], history := [], fs := leftoverFS }
+example : Holds { op := .install, root := "/a/p".toList, name := "new".toList, src := "/src/notation-new".toList, overwrite := false, trusted := true, cwd := [], path := [], peers := [], history := [], fs := leftoverFS }
     { err := false, executed := ["/src/notation-new".toList], changed := ["/outside/ghost1".toList], listed := [], chmod := [] } = false := by decide
 
 /-- a download area outside the root, and the plugin `new` with neighbours whose names derive from it -/
@@ -681,20 +691,20 @@ def historyFS : List Node :=
     ⟨"/dl".toList, .dir, 0, []⟩, ⟨"/dl/notation-new".toList, .exec, 2, []⟩ ]
 
 /-- install, then the download is replaced, then Get on the same manager: what runs is the installed copy -/
-example : run { op := .get, root := "/a/p".toList, name := "new".toList, src := "/dl/notation-new".toList, overwrite := false, trusted := true, cwd := [], path := [], history := [.install, .touchSrc], fs := historyFS } =
+example : run { op := .get, root := "/a/p".toList, name := "new".toList, src := "/dl/notation-new".toList, overwrite := false, trusted := true, cwd := [], path := [], peers := [], history := [.install, .touchSrc], fs := historyFS } =
     { err := false, executed := ["/a/p/new/notation-new".toList], changed := [], listed := [], chmod := [] } := by decide
 
 /-- `Holds` is false of a manager that hands out the plugin object built from the download -/
-example : Holds { op := .get, root := "/a/p".toList, name := "new".toList, src := "/dl/notation-new".toList, overwrite := false, trusted := true, cwd := [], path := [], history := [.install, .touchSrc], fs := historyFS }
+example : Holds { op := .get, root := "/a/p".toList, name := "new".toList, src := "/dl/notation-new".toList, overwrite := false, trusted := true, cwd := [], path := [], peers := [], history := [.install, .touchSrc], fs := historyFS }
     { err := false, executed := ["/dl/notation-new".toList], changed := [], listed := [], chmod := [] } = false := by decide
 
 /-- install - uninstall - get: the plugin is gone -/
-example : run { op := .get, root := "/a/p".toList, name := "new".toList, src := "/dl/notation-new".toList, overwrite := false, trusted := true, cwd := [], path := [], history := [.install, .uninstall], fs := historyFS } = errObs := by decide
+example : run { op := .get, root := "/a/p".toList, name := "new".toList, src := "/dl/notation-new".toList, overwrite := false, trusted := true, cwd := [], path := [], peers := [], history := [.install, .uninstall], fs := historyFS } = errObs := by decide
 
 /-- uninstall leaves the neighbour `new.removing` alone; `Holds` is false of one that does not -/
-example : run { op := .uninstall, root := "/a/p".toList, name := "new".toList, src := [], overwrite := false, trusted := true, cwd := [], path := [], history := [], fs := historyFS } =
+example : run { op := .uninstall, root := "/a/p".toList, name := "new".toList, src := [], overwrite := false, trusted := true, cwd := [], path := [], peers := [], history := [], fs := historyFS } =
     { err := false, executed := [], changed := ["/a/p/new".toList, "/a/p/new/notation-new".toList], listed := [], chmod := [] } := by decide
-example : Holds { op := .uninstall, root := "/a/p".toList, name := "new".toList, src := [], overwrite := false, trusted := true, cwd := [], path := [], history := [], fs := historyFS }
+example : Holds { op := .uninstall, root := "/a/p".toList, name := "new".toList, src := [], overwrite := false, trusted := true, cwd := [], path := [], peers := [], history := [], fs := historyFS }
     { err := false, executed := [],
       changed := ["/a/p/new".toList, "/a/p/new.removing".toList, "/a/p/new.removing/notation-new.removing".toList, "/a/p/new/notation-new".toList],
       listed := [], chmod := [] } = false := by decide
@@ -708,33 +718,33 @@ def envFS : List Node :=
     ⟨"/opt/pbin".toList, .dir, 0, []⟩, ⟨"/opt/pbin/notation-tool".toList, .exec, 5, []⟩ ]
 
 /-- with root `../../lib/plugins` what runs is `<cwd>/../../lib/plugins/new/notation-new` -/
-example : run { op := .get, root := "../../lib/plugins".toList, name := "new".toList, src := [], overwrite := false, trusted := true, cwd := "/h/u/w".toList, path := [], history := [], fs := envFS } =
+example : run { op := .get, root := "../../lib/plugins".toList, name := "new".toList, src := [], overwrite := false, trusted := true, cwd := "/h/u/w".toList, path := [], peers := [], history := [], fs := envFS } =
     { err := false, executed := ["/h/lib/plugins/new/notation-new".toList], changed := [], listed := [], chmod := [] } := by decide
 
 /-- ... `Holds` is false when the relative path is resolved once more from the plugin's directory -/
-example : Holds { op := .get, root := "../../lib/plugins".toList, name := "new".toList, src := [], overwrite := false, trusted := true, cwd := "/h/u/w".toList, path := [], history := [], fs := envFS }
+example : Holds { op := .get, root := "../../lib/plugins".toList, name := "new".toList, src := [], overwrite := false, trusted := true, cwd := "/h/u/w".toList, path := [], peers := [], history := [], fs := envFS }
     { err := false, executed := ["/h/lib/lib/plugins/new/notation-new".toList], changed := [], listed := [], chmod := [] } = false := by decide
 
 /-- a plugin that is not installed is not found, whatever the PATH holds; `Holds` is false of a lookup on the PATH -/
-example : run { op := .verify, root := "/h/lib/plugins".toList, name := "tool".toList, src := [], overwrite := false, trusted := true, cwd := [], path := ["/opt/pbin".toList], history := [], fs := envFS } =
+example : run { op := .verify, root := "/h/lib/plugins".toList, name := "tool".toList, src := [], overwrite := false, trusted := true, cwd := [], path := ["/opt/pbin".toList], peers := [], history := [], fs := envFS } =
     errObs := by decide
-example : Holds { op := .verify, root := "/h/lib/plugins".toList, name := "tool".toList, src := [], overwrite := false, trusted := true, cwd := [], path := ["/opt/pbin".toList], history := [], fs := envFS }
+example : Holds { op := .verify, root := "/h/lib/plugins".toList, name := "tool".toList, src := [], overwrite := false, trusted := true, cwd := [], path := ["/opt/pbin".toList], peers := [], history := [], fs := envFS }
     { err := false, executed := ["/opt/pbin/notation-tool".toList], changed := [], listed := [], chmod := [] } = false := by decide
 
 /-- `Holds` is false of the unguarded behaviour: the victim directory removed ... -/
-example : Holds { op := .uninstall, root := "/a/p".toList, name := "../victim".toList, src := [], overwrite := false, trusted := true, cwd := [], path := [], history := [], fs := sampleFS }
+example : Holds { op := .uninstall, root := "/a/p".toList, name := "../victim".toList, src := [], overwrite := false, trusted := true, cwd := [], path := [], peers := [], history := [], fs := sampleFS }
     { err := false, executed := [], changed := ["/a/victim".toList, "/a/victim/notation-victim".toList], listed := [], chmod := [] } = false := by decide
 
 /-- end to end: the plugin named by the signature runs although the signer is not trusted -/
-example : run { op := .verify, root := "/a/p".toList, name := "good".toList, src := [], overwrite := false, trusted := false, cwd := [], path := [], history := [], fs := sampleFS } =
+example : run { op := .verify, root := "/a/p".toList, name := "good".toList, src := [], overwrite := false, trusted := false, cwd := [], path := [], peers := [], history := [], fs := sampleFS } =
     { err := true, executed := ["/a/p/good/notation-good".toList], changed := [], listed := [], chmod := [] } := by decide
 
 /-- ... a sentinel outside the root executed ... -/
-example : Holds { op := .verify, root := "/a/p".toList, name := "../victim".toList, src := [], overwrite := false, trusted := false, cwd := [], path := [], history := [], fs := sampleFS }
+example : Holds { op := .verify, root := "/a/p".toList, name := "../victim".toList, src := [], overwrite := false, trusted := false, cwd := [], path := [], peers := [], history := [], fs := sampleFS }
     { err := true, executed := ["/a/victim/notation-victim".toList], changed := [], listed := [], chmod := [] } = false := by decide
 
 /-- ... or a hostile name merely accepted without an error -/
-example : Holds { op := .get, root := "/a/p".toList, name := "good/../good".toList, src := [], overwrite := false, trusted := true, cwd := [], path := [], history := [], fs := sampleFS }
+example : Holds { op := .get, root := "/a/p".toList, name := "good/../good".toList, src := [], overwrite := false, trusted := true, cwd := [], path := [], peers := [], history := [], fs := sampleFS }
     { err := false, executed := [], changed := [], listed := [], chmod := [] } = false := by decide
 
 /-- a directory source whose only candidate lacks the execute permission -/
@@ -744,19 +754,19 @@ def nonexecFS : List Node :=
     ⟨"/srcx".toList, .dir, 0, []⟩, ⟨"/srcx/notation-x".toList, .file, 2, []⟩ ]
 
 /-- an accepted name: the candidate is made executable (and then cannot be run: it is a data file) -/
-example : run { op := .install, root := "/a/p".toList, name := "x".toList, src := "/srcx".toList, overwrite := false, trusted := true, cwd := [], path := [], history := [], fs := nonexecFS } =
+example : run { op := .install, root := "/a/p".toList, name := "x".toList, src := "/srcx".toList, overwrite := false, trusted := true, cwd := [], path := [], peers := [], history := [], fs := nonexecFS } =
     { err := true, executed := [], changed := [], listed := [], chmod := ["/srcx/notation-x".toList] } := by decide
 
 /-- a refused name: not even a permission changes -/
-example : run { op := .install, root := "/a/p".toList, name := "..".toList, src := "/srcdir".toList, overwrite := false, trusted := true, cwd := [], path := [], history := [], fs := nonexecFS } =
+example : run { op := .install, root := "/a/p".toList, name := "..".toList, src := "/srcdir".toList, overwrite := false, trusted := true, cwd := [], path := [], peers := [], history := [], fs := nonexecFS } =
     errObs := by decide
 
 /-- `Holds` is false of an Install that made `notation-..` executable before refusing the name -/
-example : Holds { op := .install, root := "/a/p".toList, name := "..".toList, src := "/srcdir".toList, overwrite := false, trusted := true, cwd := [], path := [], history := [], fs := nonexecFS }
+example : Holds { op := .install, root := "/a/p".toList, name := "..".toList, src := "/srcdir".toList, overwrite := false, trusted := true, cwd := [], path := [], peers := [], history := [], fs := nonexecFS }
     { err := true, executed := [], changed := [], listed := [], chmod := ["/srcdir/notation-..".toList] } = false := by decide
 
 /-- and of a listing that reports a symbolic link -/
-example : Holds { op := .list, root := "/a/p".toList, name := [], src := [], overwrite := false, trusted := true, cwd := [], path := [], history := [], fs := sampleFS }
+example : Holds { op := .list, root := "/a/p".toList, name := [], src := [], overwrite := false, trusted := true, cwd := [], path := [], peers := [], history := [], fs := sampleFS }
     { err := false, executed := [], changed := [], listed := ["good".toList, "lnk".toList], chmod := [] } = false := by decide
 
 /-! ### tie to the translated source -/
